@@ -314,6 +314,22 @@ func parseContractFile(path string, pkgPath string, ps *PkgSpec) error {
 					return fail(l, "%v", err)
 				}
 				cur.Impls = append(cur.Impls, ie)
+			case "assert":
+				// assert call N <expr>: must hold just before the N-th call instruction of the function
+				if len(fields) < 4 || fields[1] != "call" {
+					return fail(l, "assert call N expr")
+				}
+				if _, err := strconv.Atoi(fields[2]); err != nil {
+					return fail(l, "assert call N: %v", err)
+				}
+				txt := strings.TrimSpace(rest[strings.Index(rest, fields[2])+len(fields[2]):])
+				c, err := mkClause(l, "assert", "", txt)
+				if err != nil {
+					return err
+				}
+				key := "call#" + fields[2]
+				c.Ord = len(cur.Asserts[key]) + 1
+				cur.Asserts[key] = append(cur.Asserts[key], c)
 			case "inline":
 				cur.Inline = true
 			case "pure":
